@@ -542,6 +542,10 @@ func c07Run(seed int64, sc c07scn, res *core.Result) {
 		// … and leaves no fid or other protocol state behind
 		c07Probe(e, target, fail)
 	}
+	if replied && len(pos[target.Tag]) == 1 {
+		// answered: the request took effect, completely (a Tflush that came too late changes nothing)
+		c07ProbeAnswered(e, target, wireOrder[pos[target.Tag][0]].Msg, fail)
+	}
 	if sc.stage == "unknown" || sc.stage == "replied" {
 		if !replied {
 			fail("target-unanswered", "the target got no reply although nothing flushed it", nil)
@@ -591,6 +595,65 @@ func c07logTail(l *script.Log, n int) []string {
 }
 
 // c07Probe checks that a cancelled request left the fid table as it was before it.
+// c07ProbeAnswered: the target was answered with success although a Tflush was around; the fid table must show the
+// whole effect of the request (new fid present, clunked fid gone, opened fid open).
+func c07ProbeAnswered(e *c07env, target, reply *wire.Msg, fail func(string, string, map[string]interface{})) {
+	if reply == nil || reply.Type != target.Type+1 {
+		return
+	}
+	const F = 50
+	stat := func(fid uint32) *wire.Msg { return e.rpc(&wire.Msg{Type: wire.Tstat, Fid: fid}) }
+	mustBeValid := func(fid uint32, what string) {
+		if r := stat(fid); r == nil {
+			fail("probe-lost", "no reply to a probe after the flush", nil)
+		} else if r.Type == wire.Rerror && r.Ename == "unknown fid" {
+			fail("effect-missing;"+what, fmt.Sprintf("%s was answered with success, but fid %d is unknown afterwards", what, fid), nil)
+		}
+	}
+	mustBeGone := func(fid uint32, what string) {
+		if r := stat(fid); r == nil {
+			fail("probe-lost", "no reply to a probe after the flush", nil)
+		} else if r.Type != wire.Rerror || r.Ename != "unknown fid" {
+			fail("effect-missing;"+what, fmt.Sprintf("%s was answered with success, but fid %d is still valid afterwards (%s)", what, fid, r.String()), nil)
+		}
+	}
+	mustBeOpen := func(what string) {
+		r := e.rpc(&wire.Msg{Type: wire.Twalk, Fid: F, Newfid: 92, Wname: []string{}})
+		if r == nil {
+			fail("probe-lost", "no reply to a probe after the flush", nil)
+		} else if r.Type == wire.Rwalk {
+			e.rpc(&wire.Msg{Type: wire.Tclunk, Fid: 92})
+			fail("effect-missing;"+what, fmt.Sprintf("%s was answered with success, but fid %d is not open afterwards (it can still be cloned)", what, F), nil)
+		}
+	}
+	switch target.Type {
+	case wire.Tattach:
+		mustBeValid(F, "Tattach")
+	case wire.Tauth:
+		if r := e.rpc(&wire.Msg{Type: wire.Tclunk, Fid: F}); r == nil {
+			fail("probe-lost", "no reply to a probe after the flush", nil)
+		} else if r.Type != wire.Rclunk {
+			fail("effect-missing;Tauth", "Tauth was answered with success, but its afid cannot be clunked afterwards: "+r.String(), nil)
+		}
+	case wire.Twalk:
+		switch {
+		case len(reply.Wqid) == len(target.Wname) && target.Newfid != target.Fid:
+			mustBeValid(target.Newfid, "Twalk")
+			mustBeValid(F, "Twalk")
+		case len(reply.Wqid) == len(target.Wname):
+			mustBeValid(F, "Twalk in place")
+		}
+	case wire.Topen:
+		mustBeOpen("Topen")
+	case wire.Tcreate:
+		mustBeOpen("Tcreate")
+	case wire.Tclunk:
+		mustBeGone(F, "Tclunk")
+	case wire.Tremove:
+		mustBeGone(F, "Tremove")
+	}
+}
+
 func c07Probe(e *c07env, target *wire.Msg, fail func(string, string, map[string]interface{})) {
 	const F = 50
 	stat := func(fid uint32) *wire.Msg { return e.rpc(&wire.Msg{Type: wire.Tstat, Fid: fid}) }
